@@ -536,7 +536,7 @@ def depth_relation(b, sw, val):
     return (op, nm(r_))
 
 
-def borrow_rule(R, func, new_rid, text, only_rules=None):
+def borrow_rule(R, func, new_rid, text, only_rules=None, only_keys=None):
     """Run a rule of another property (func(sub_report)) and account its obligations under `new_rid` of this property:
     a clause that one property shares with another is decided by the same analysis, reported under this property's id."""
     from .report import Report
@@ -545,6 +545,8 @@ def borrow_rule(R, func, new_rid, text, only_rules=None):
     R.rule(new_rid, text)
     for o in sub.obligations:
         if only_rules is not None and o["rule"] not in only_rules:
+            continue
+        if only_keys is not None and not only_keys(o["key"]):
             continue
         if o["ok"]:
             R.ok(new_rid, o["key"], o["site"], o["detail"])
